@@ -75,6 +75,16 @@ CLAIMED["C10"] = ("model_checking",
   "The implementation's = is tabulated over all ordered pairs of a 28-text universe (zero and one in several spellings, escaped strings, nested equal collections, near misses) and must be an equivalence that agrees with reference equality; with --unique, all streams of <=3 (thorough 4) values over the universe and <=5 (thorough 6) over an 8-text core, all streams of <=4 (thorough 5) records through one and two selections (present / null / absent members), and growth families of up to 57 distinct values in three spellings must print exactly the first occurrences.",
   "-0 and member-order permutations are outside (the property excludes them).",
   "DESIGN.md §5 C10")
+CLAIMED["C03"] = ("model_checking",
+  "bounded-exhaustive enumeration of option combinations x input histories x argument orders on jawk::go, in lock-step with a reference pipeline of pure list transformations (expressions evaluated by the reference evaluator)",
+  "51 840 configurations (quick: 17 280) built from interacting menus for --set, --split-by (one reading a --set variable), --filter (one a --set macro through a pipe), --select (one reading a selected name), --unique, --sort-by (1-2 keys, a selected name), --skip, --take, --group-by/--merge (one on a selected name) and --only-objects-and-arrays are run on every sequence of <=2 (thorough 3) values over 7 records and on cyclic 17/40-row inputs; rows must equal the documented stage composition; every configuration is re-run with its option groups reversed and rotated, every 211th with all permutations, and must print the same bytes.",
+  "Expressions come from fixed menus (the expression language itself is C04/C12/C13). Relative order of repeated --select/--sort-by is kept, as the property states.",
+  "DESIGN.md §5 C03")
+CLAIMED["C11"] = ("model_checking",
+  "bounded-exhaustive enumeration of input sequences x stateless pipelines x output styles on jawk::go with a metamorphic oracle (output of a sequence = header + concatenation of the single-value bodies)",
+  "All sequences of <=5 (thorough 7) values over a 6-value universe under 18 stateless pipelines (regex with cache sizes 0/1/2 and per-record patterns, --set variables and macros that read ^ / a variable, --split-by, selected names, define/set/fold) in six output styles must print exactly the header followed by the bodies each value prints on its own; this covers every concatenation A.B, permutation and duplication within the bound.",
+  "No & selector and no stateful option is used (the property excludes them).",
+  "DESIGN.md §5 C11")
 NOT_YET = {}
 props=[json.loads(l) for l in open('/verif/properties.jsonl')]
 checks=[]; na=[]
